@@ -122,6 +122,7 @@ class CrashRun:
         self.nsamples = t.int_between(2, 6, "nsamples") if role == "sampler" else None
         self.pre_ds = None
         self.pre_rows = None
+        self.victim_crop = None  # the Crop object the victim worked with (for same-session retries)
 
     # ------------------------------------------------------------- phases
     def first_sow(self):
@@ -130,12 +131,15 @@ class CrashRun:
         else:
             self.m.sow()
 
-    def resow_body(self):
-        """the sow call as a user would repeat it (new session)"""
+    def resow_body(self, crop=None):
+        """the sow call as a user would repeat it (new session; or, crop given, the
+        same session on the very object whose sow failed)"""
         m = self.m
         import numpy as np
 
-        crop = m.new_sow_crop()
+        if crop is None:
+            crop = m.new_sow_crop()
+        self.victim_crop = crop
         if self.role == "sampler":
             np.random.seed(self.t.choose(1000, "np-seed-resow"))
             crop.sow_samples(self.nsamples, combos={a: list(v) for a, v in m.sc.sweep.combos},
@@ -197,22 +201,28 @@ class CrashRun:
         if victim == "grow_fn":
             b = t.pick(missing or allb, "victim-batch")
             self.ctx.t("victim grows", b, kw)
-            return lambda: xgrow(b, m.load_crop(), verbosity=0, **kw)
+            return lambda: xgrow(b, self.keep(m.load_crop()), verbosity=0, **kw)
         if victim == "crop_grow":
             n = t.int_between(1, len(allb), "victim-n")
             ids = t.perm(allb, "victim-ids")[:n]
             self.ctx.t("victim grows", ids, kw)
-            return lambda: m.load_crop().grow(tuple(ids), **kw)
+            return lambda: self.keep(m.load_crop()).grow(tuple(ids), **kw)
         if victim == "grow_missing":
             self.ctx.t("victim grows missing", missing, kw)
-            return lambda: m.load_crop().grow_missing(**kw)
+            return lambda: self.keep(m.load_crop()).grow_missing(**kw)
         if victim == "reap":
-            return lambda: m.load_crop().reap()
+            return lambda: self.keep(m.load_crop()).reap()
         raise HarnessError(victim)
 
+    def keep(self, crop):
+        self.victim_crop = crop
+        return crop
+
     # ------------------------------------------------------------ recovery
-    def recover(self, victim, tag, second_kill=None):
-        """The documented recovery, every step by a fresh simulated process.
+    def recover(self, victim, tag, second_kill=None, same_session=False):
+        """The documented recovery, every step by a fresh simulated process -
+        or, same_session (only after a fault the victim survived: disk full), with
+        the step that repeats the failed call made on the victim's own Crop object.
         second_kill = (step name, site) kills that step once.  Returns the
         reap result, ('killed', step) when the second kill fired, or
         ('delivered',) when a harvester / sampler crop is gone after a killed
@@ -239,6 +249,7 @@ class CrashRun:
         val, _ = m.call("recover-inspect", need_resow, oracle="inspect-raised")
         resow = val or victim in ("sow", "resow")
         plan = (["resow"] if resow else []) + ["check_bad", "grow_missing", "reap"]
+        old = self.victim_crop if same_session else None
         for step in plan:
             body = {
                 "resow": self.resow_body,
@@ -246,6 +257,13 @@ class CrashRun:
                 "grow_missing": lambda: m.load_crop().grow_missing(),
                 "reap": lambda: (lambda c: (c, c.reap()))(m.load_crop()),
             }[step]
+            if old is not None:
+                if step == "resow" and victim in ("sow", "resow"):
+                    body = lambda: self.resow_body(crop=old)
+                elif step == "grow_missing" and victim in ("grow_fn", "crop_grow", "grow_missing"):
+                    body = lambda: old.grow_missing()
+                elif step == "reap" and victim == "reap":
+                    body = lambda: (old, old.reap())
             kill_at = None
             if second_kill is not None and second_kill[0] == step:
                 kill_at = second_kill[1]
@@ -467,6 +485,7 @@ def run_c10(ctx):
 
     for k in sites:
         restore_tree(r.snap, w.root)
+        r.victim_crop = None
         if fault == "enospc":
             fired0 = sum(v for kk, v in w.fired.items() if kk.startswith("io-error"))
             swallowed = True
@@ -530,7 +549,14 @@ def _after_crash(ctx, r, victim, tag, k):
     if t.flag(1, 4, "second-kill"):
         second = (t.pick(["resow", "check_bad", "grow_missing", "reap"], "second-step"),
                   1 + t.choose(40, "second-site"))
-    res = r.recover(victim, tag, second_kill=second)
+    same = False
+    if r.fault == "enospc" and r.victim_crop is not None:
+        # the victim is still alive: its session may repeat the failed call on the same object
+        same = t.flag(1, 2, "recover-in-same-session")
+        if same:
+            ctx.stats["recoveries-in-the-same-session"] += 1
+            tag += ", retried in the same session"
+    res = r.recover(victim, tag, second_kill=second, same_session=same)
     killed_reap = False
     if isinstance(res, tuple) and res and res[0] == "killed":
         tag2 = tag + ", then recovery step {} killed at its site {}".format(res[1], second[1])
